@@ -299,6 +299,7 @@ def run(ctx):
                 ctx.corr_case('bookkeeping', ok, case={'history': log[:i + 1]}, model={'recorded': mrec, 'executed': m['executed']},
                               impl=r)
     purge_preview_probe(ctx)
+    purge_fails_probe(ctx)
     # ---- fixed witness of the Lean counterexample C08_cex_mark_then_install ---------------------
     evorig.fresh_databases()
     evorig.clear_evolutions()
@@ -371,6 +372,43 @@ def purge_preview_probe(ctx):
     if mid != before or after != before:
         ctx.fail(None, 'a purge that was only previewed changed the recorded evolutions: %s -> %s'
                  % (before, after if after != before else mid), {'history': steps, 'before': before, 'after': after})
+
+
+def purge_fails_probe(ctx):
+    """a run of several task classes whose LAST class fails: an installed app has new evolutions to apply, and a
+    stale app is purged in the same run, but its table is already gone, so the purge's DROP TABLE fails.  The run
+    did not complete: nothing may be recorded by it (and a later complete run records the labels once)"""
+    from django.db import connection
+    from django_evolution.models import Evolution, Version
+    from django_evolution.signature import AppSignature, ModelSignature
+    evorig.fresh_databases()
+    evorig.clear_evolutions()
+    w = World(False)
+    w.n['vapp'] = 1
+    w.install()
+    run_step(w, None, False)
+    v = Version.objects.current_version()
+    s = v.signature
+    a = AppSignature(app_id='yapp')
+    a.add_model_sig(ModelSignature(model_name='Yo', table_name='yapp_yo'))
+    s.add_app_sig(a)
+    v.signature = s
+    v.save()                      # the signature lists yapp.Yo, the table was dropped by hand
+    w.n['vapp'] += 1              # a new release of the installed app: one more evolution
+    w.install()
+    rows = lambda: sorted(Evolution.objects.values_list('app_label', 'label', 'version_id'))
+    nver = lambda: Version.objects.count()
+    before, vbefore = rows(), nver()
+    r = evorig.run_evolver(purge=True)
+    after, vafter = rows(), nver()
+    steps = ['install vapp', 'stale app yapp in the signature (its table is gone)', 'vapp grows by one evolution',
+             'Evolver: evolve all apps + purge old apps -> %s' % r[0]]
+    ctx.count('purge_fails_probe:%s' % r[0])
+    ctx.case({'history': steps}, nontrivial=True, sample_cap=1)
+    rep = {'history': steps, 'before': before, 'after': after, 'versions': [vbefore, vafter]}
+    if r[0] != 'ok' and (after != before or vafter != vbefore):
+        ctx.fail(None, 'a run whose purge task failed recorded evolutions / saved a version although it did not '
+                 'complete: %s -> %s' % (before, after), rep)
 
 
 def replay(ctx, obj):
